@@ -239,6 +239,24 @@ def run(c, facts, tier):
                     {("err" if r["outcome"].startswith("err") else "ok") for _, r in pv.get(v, [])} == {("err" if r["outcome"].startswith("err") else "ok") for _, r in sv.get(v, [])} for v in facts.variants("FormatField")
                 )
                 ok = prem1 and prem2 and lp < cl["l"]
+                if not ok and prem2 and name == facts.fn("scheme::target_scheme::snippet").name:
+                    # the swallowing loop sits in a helper: every caller of the helper must have run, earlier and with `?`,
+                    # a placeholder pass over the very collection it hands to the helper
+                    phname = facts.fn("scheme::target_scheme::placeholder").name
+                    has_ph_try = lambda body: bool(find_all(body, lambda n: n.get("k") == "try" and find_all(n, lambda m: m.get("k") == "call" and m["f"]["k"] == "path" and m["f"]["segs"][-1] == phname)))
+                    guards = {g_.name for g_ in facts.fns.values() if not g_.test and g_.body is not None and has_ph_try(g_.body) and "Result" in (g_.node.get("output") or "")}
+                    sites = []
+                    for f2 in facts.fns.values():
+                        if f2.test or f2.body is None or f2 is fn:
+                            continue
+                        for c2 in find_all(f2.body, lambda n: n.get("k") == "call" and n["f"]["k"] == "path" and n["f"]["segs"][-1] == fn.name and len(n["args"]) >= 1):
+                            arg = src(rx.peel(c2["args"][0]))
+                            pre = [t_ for t_ in find_all(f2.body, lambda n: n.get("k") == "try") if t_["l"] <= c2["l"] and t_ is not c2 and (find_all(t_, lambda m: m.get("k") == "call" and m["f"]["k"] == "path" and m["f"]["segs"][-1] == phname) or find_all(t_, lambda m: m.get("k") == "call" and m["f"]["k"] == "path" and m["f"]["segs"][-1] in guards and m["args"] and src(rx.peel(m["args"][0])) == arg and m is not c2))]
+                            # the guard has to stand before the call in evaluation order: an earlier statement of the same block
+                            sites.append((f2.key, bool(pre) and not any(find_all(t_, lambda m: m is c2) for t_ in pre)))
+                    if sites and all(ok_ for _, ok_ in sites) and fn.impl is None and fn.node.get("vis") != "pub":
+                        ok = True
+                        how += "; every caller (%s) first runs the placeholder pass over the same collection with `?`" % ", ".join(sorted({k_ for k_, _ in sites}))
                 c.ob("C12.propagate", fn.key, "%s(..) [%s]" % (name, src(cl)[:50]), ok, "error swallowed by %s; accepted only because the same elements already passed placeholder(..)? (%s) and placeholder/snippet refuse exactly the same fields (%s)" % (how, prem1 and lp < cl["l"], prem2))
             else:
                 c.ob("C12.propagate", fn.key, "%s(..) [%s]" % (name, src(cl)[:50]), False, "result is %s: an Unsupported* error from below would be lost and the construct silently dropped" % (how or "not propagated"), witness="-true -o -regex x" if name == "compile" else None)
